@@ -151,9 +151,27 @@ def gen_exhaustive_scripts(tier, rng):
                 n += 1
     return out
 
+def gen_big_tables(tier, rng):
+    """single-goroutine scripts on tables that have ALREADY grown to 32 / 64 / 128 slots (what sustained contention leaves
+    behind): Store / Reset / SumAndReset rebuild every slot, later updates go through probes all over the table"""
+    out = []
+    for i in range(scale(tier, 18, 120)):
+        kind = ["jdkadd", "jdkf"][i % 2]
+        n = [32, 64, 128][i % 3]
+        mod = rng.choice([n + 1, n + 1, 2, 3, 5])          # all slots but 0 / every slot that is not a multiple of mod
+        ops = [rng.choice(["w5", "r", "q", "w0"])]
+        for _ in range(rng.choice([6, 10])):
+            ops.append(rng.choice(["a3", "a7", "i", "d", "s", "a3", "a1"]))
+        ops += ["s", rng.choice(["q", "r", "w9"]), "a2", "s"]
+        words = [rng.randrange(0, 2 * n) for _ in range(40)]
+        out.append(conc.Scn("bt%d" % i, kind, words, [ops], "dfs 0 1",
+                            {"maxcells": 256, "maxsteps": 60000, "pglen": n, "pgcap": n, "pgmod": mod}))
+    return out
+
 def gen_c16(tier, rng):
     s = []
     s += gen_exhaustive_scripts(tier, rng)
+    s += gen_big_tables(tier, rng)
     kinds = ["jdkadd", "jdkf", "rc", "atomic", "atomicf", "mutexadd"]
     # single-threaded scripts over the whole API
     for i in range(scale(tier, 150, 2500)):
